@@ -115,10 +115,14 @@ def gen15(rng):
             ops.append(f"set {rng.choice([5, 6])} {rng.randint(0, 2)} {rng.randint(1, 5)}")
         ops.append("session")
         for _ in range(rng.randint(1, 5)):
-            ops.append(f"req {rng.randint(0, 4)} {rng.randint(0, 2)}")
+            if rng.random() < 0.25: ops.append(f"req {rng.choice([7, 8])} 0")      # zero-sized task types
+            else: ops.append(f"req {rng.randint(0, 4)} {rng.randint(0, 2)}")
         ops.append("endsession")
+    def key():
+        t = rng.randint(0, 8)
+        return f"{t} {0 if t >= 7 else rng.randint(0, 2)}"
     for _ in range(6):
-        ops.append(f"eq {rng.randint(0, 6)} {rng.randint(0, 2)} {rng.randint(0, 6)} {rng.randint(0, 2)}")
+        ops.append(f"eq {key()} {key()}")
     return ops
 
 
@@ -137,6 +141,12 @@ def oracle15(case, lines):
         if l.startswith("req "):
             t = l.split(" "); ty, n = int(t[1]), int(t[2])
             tasks.add((ty, n))
+            if ty in (7, 8):
+                ress.add((5, 0))
+                want = f"out {ty * 1000 + vals.get((5, 0), 0)}"
+                got = l.split(" -> ")[1]
+                if got != want: fails.append(f"'{l}': expected {want} (zero-sized tasks of different types must not share a cached output)")
+                continue
             for m in range(n): tasks.add((0, m)); tasks.add((1, m))
             for m in range(n + 1): ress.add((5, m)); ress.add((6, m))
             # expected output by the documented body
